@@ -72,7 +72,7 @@ def known_match(known, prop, finding):
     for k in known.get('known', []):
         if prop not in k.get('properties', [k.get('property')]):
             continue
-        if k['rule'] == finding.rule and k['key']['function'] == finding.fn and \
+        if k['rule'] == finding.rule.split('@')[0] and k['key']['function'] == finding.fn and \
                 k['key']['symbol'] == finding.symbol:
             return k
     return None
